@@ -1700,6 +1700,55 @@ func (w *Writer) writeMathExpression(e ir.ExprMath) error {
 		}
 	}
 
+	// countLeadingZeros / countTrailingZeros have no HLSL intrinsic: firstbithigh
+	// gives the INDEX of the highest set bit (and -1 for 0), firstbitlow gives -1
+	// for 0 where WGSL prescribes 32. Matches Rust naga's expansion.
+	switch e.Fun {
+	case ir.MathCountLeadingZeros, ir.MathCountTrailingZeros:
+		argScalar := w.getExprScalar(e.Arg)
+		if argScalar != nil && argScalar.Width == 4 && (argScalar.Kind == ir.ScalarSint || argScalar.Kind == ir.ScalarUint) {
+			signed := argScalar.Kind == ir.ScalarSint
+			if e.Fun == ir.MathCountTrailingZeros {
+				if signed {
+					w.Out.WriteString("asint(")
+				}
+				w.Out.WriteString("min(32u, firstbitlow(")
+				if err := w.writeExpression(e.Arg); err != nil {
+					return fmt.Errorf("math arg: %w", err)
+				}
+				w.Out.WriteString("))")
+				if signed {
+					w.Out.WriteByte(')')
+				}
+				return nil
+			}
+			if !signed {
+				w.Out.WriteString("(31u - firstbithigh(")
+				if err := w.writeExpression(e.Arg); err != nil {
+					return fmt.Errorf("math arg: %w", err)
+				}
+				w.Out.WriteString("))")
+				return nil
+			}
+			// signed: a negative value has no leading zeros; firstbithigh of a
+			// negative int looks for the highest 0 bit, so it must not be used.
+			zero := "0"
+			if vec, ok := w.getExpressionTypeInner(e.Arg).(ir.VectorType); ok {
+				zero = fmt.Sprintf("(int%d)0", vec.Size)
+			}
+			w.Out.WriteByte('(')
+			if err := w.writeExpression(e.Arg); err != nil {
+				return fmt.Errorf("math arg: %w", err)
+			}
+			fmt.Fprintf(&w.Out, " < %s ? %s : 31 - asint(firstbithigh(", zero, zero)
+			if err := w.writeExpression(e.Arg); err != nil {
+				return fmt.Errorf("math arg: %w", err)
+			}
+			w.Out.WriteString(")))")
+			return nil
+		}
+	}
+
 	funcName, err := mathFunctionToHLSL(e.Fun)
 	if err != nil {
 		return err
